@@ -3,7 +3,8 @@
    Definitions only; proofs are in UptoFacts.v.  Line references: /repo/src/css_parser/util.py.
 
    The model follows the repaired code (fix: "_tokensupto2 counts a FUNCTION start token as an
-   opening parenthesis"): `start_count` has the FUNCTION disjunct.  `start_count_pinned` is the
+   opening parenthesis": `start_count` has the FUNCTION disjunct; fix: "_tokensupto2 never takes an
+   IDENT for a bracket or an end character": the `is_ident` guards).  `start_count_pinned` is the
    accounting of the pinned tree (kept for the refutation witness in UptoFacts).            *)
 From CssV Require Import Base Tokenizer.
 Open Scope Z_scope.
@@ -44,13 +45,16 @@ Fixpoint is_sub (pat text : str) : bool :=
   starts pat text || match text with [] => false | _ :: r => is_sub pat r end.
 
 Definition is_eof (t : tok) : bool := eqs (ty t) (s "EOF").
+(* fix "never takes an IDENT for a bracket or an end character": for an IDENT token `val` is None *)
+Definition is_ident (t : tok) : bool := eqs (ty t) (s "IDENT").
 Definition is_function (t : tok) : bool := eqs (ty t) (s "FUNCTION").
 
 (* l.352-360: accounting of the start token (closing brackets are NOT counted here) *)
 Definition start_count (c : counters) (t : tok) : counters :=
   let '(br, bk, pa) := c in
   let v := val t in
-  if eqs v (s "[") then (br, bk + 1, pa)
+  if is_ident t then c
+  else if eqs v (s "[") then (br, bk + 1, pa)
   else if eqs v (s "{") then (br + 1, bk, pa)
   else if eqs v (s "(") || is_function t then (br, bk, pa + 1)
   else c.
@@ -67,7 +71,8 @@ Definition start_count_pinned (c : counters) (t : tok) : counters :=
 Definition bump (c : counters) (t : tok) : counters :=
   let '(br, bk, pa) := c in
   let v := val t in
-  if eqs v (s "{") then (br + 1, bk, pa)
+  if is_ident t then c
+  else if eqs v (s "{") then (br + 1, bk, pa)
   else if eqs v (s "}") then (br - 1, bk, pa)
   else if eqs v (s "[") then (br, bk + 1, pa)
   else if eqs v (s "]") then (br, bk - 1, pa)
@@ -80,7 +85,7 @@ Definition zero (c : counters) : bool :=
 
 (* `val in ends or typ in endtypes` *)
 Definition isendtok (md : mode) (t : tok) : bool :=
-  is_sub (val t) (ends md) || mem_str (ty t) (endtypes md).
+  (negb (is_ident t) && is_sub (val t) (ends md)) || mem_str (ty t) (endtypes md).
 
 (* l.386-392, evaluated after the counters were updated with the token *)
 Definition stops (md : mode) (c : counters) (t : tok) : bool :=
@@ -136,7 +141,8 @@ Inductive bclass := BOpen (k : nat) | BClose (k : nat) | BAtom.
 
 Definition bclass_of (t : tok) : bclass :=
   let v := val t in
-  if eqs v (s "{") then BOpen 0
+  if is_ident t then BAtom
+  else if eqs v (s "{") then BOpen 0
   else if eqs v (s "}") then BClose 0
   else if eqs v (s "[") then BOpen 1
   else if eqs v (s "]") then BClose 1
